@@ -21,6 +21,19 @@ WATCHDOG_S = int(os.environ.get("PESTVERIF_WATCHDOG_S", "3300"))
 MAX_SAMPLES = 12
 
 
+def repo_root() -> str:
+    """Root of the python-pest tree under test: the tree `import pest` resolves to (normally /repo)."""
+    try:
+        import pest
+
+        root = os.path.dirname(os.path.dirname(os.path.dirname(os.path.abspath(pest.__file__))))
+        if os.path.isdir(os.path.join(root, "tests", "grammars")):
+            return root
+    except Exception:  # noqa: BLE001
+        pass
+    return "/repo"
+
+
 class HarnessError(Exception):
     """Something is wrong with the machinery, not with python-pest."""
 
